@@ -598,6 +598,18 @@ func (eng *Engine) verifyFuncCase(ct *Contract, res *FuncResult, caseIdx int) {
 				fmt.Fprintf(os.Stderr, "ret%d logBad=%v log=%q\n", ri+1, r.s.logBad, r.s.log)
 			}
 		}
+		// thorough tier: the path condition at each return must be satisfiable (a contradictory callee contract or
+		// invariant would make every postcondition on that path vacuously true); undecided probes are inconclusive.
+		// With many returns (path splitting) only the first 24 are probed.
+		if thoroughTier {
+			for ri, r := range f.rets {
+				if ri >= 24 {
+					break
+				}
+				x.obls = append(x.obls, &Obligation{Name: fmt.Sprintf("%s/ret%d.reach", fi.Key, ri+1), Kind: "vacuity", Func: fi.Key,
+					Hyps: append([]*Term(nil), r.s.assumes...), Goal: nil, Pos: x.pos(fi.Decl.Pos()), Text: "path condition at the return satisfiable", fi: fi, Props: ct.Props})
+			}
+		}
 		// ensures at every return
 		for ri, r := range f.rets {
 			for _, en := range ct.Ensures {
